@@ -274,8 +274,8 @@ func runAPI(out io.Writer, seed int64, n int, depth int) {
 				return // the statement builders are compared in the histories below
 			}
 			step.RType, step.Method = "meth", owner+"."+bare
-			if strings.HasPrefix(owner, "JsonBuildObject") {
-				return
+			if owner == "JsonBuildObjectBuilderBuilder" || (owner == "JsonBuildObjectBuilder" && (bare == "Start" || bare == "ApplyIf")) {
+				return // the batch form and ApplyIf (pointer / function values) stay with C16's and C19's own modes
 			}
 			rv, ok := safeDump(args[0])
 			if !ok {
@@ -291,8 +291,8 @@ func runAPI(out io.Writer, seed int64, n int, depth int) {
 			switch bare {
 			case "Select", "SelectJson", "InsertInto", "Update", "DeleteFrom", "With", "WithRecursive":
 				step.RType = "qrb" // the entry points of the statement model
-			case "JsonBuildObject", "Build":
-				return // the JSON object builder has its own model (C16); Build is the render handle
+			case "Build":
+				return // Build is the render handle
 			}
 			ins := []reflect.Type{reflect.TypeOf(0)}
 			for j := 0; j < typ.NumIn(); j++ {
@@ -490,6 +490,9 @@ func apiCatalogue(g *gen.Gen, seed int64, budget int, record func(name, owner st
 		mk(qrb.Least(qrb.N("a"), qrb.Int(9)), `Least(N("a"), Int(9))`), mk(qrb.NullIf(qrb.N("a"), qrb.Int(0)), `NullIf(N("a"), Int(0))`),
 		mk(qrb.Exps(qrb.Int(1), qrb.Int(2)), "Exps(Int(1), Int(2))"), mk(qrb.Array(qrb.Int(1), qrb.Int(2)), "Array(Int(1), Int(2))"),
 		mk(sel, `Select(N("a")).From(N("t"))`), mk(qrb.Exists(sel), "Exists(sel)"), mk(qrb.Any(sel), "Any(sel)"),
+		// JSON objects of both flavours: empty, and with the keys the string operands below hit first / not at all / last
+		mk(builder.JsonBuildObject(false), "JsonBuildObject(false)"),
+		mk(builder.JsonBuildObject(true).Prop("x", qrb.N("a")).Prop("k", qrb.Int(1)).Prop("z", qrb.Arg(pool[2])), `JsonBuildObject(true).Prop("x", N("a")).Prop("k", Int(1)).Prop("z", Arg(pool[2]))`),
 		// an unset (nil) expression: filtered by And / Or, recorded as it is by everything else
 		{reflect.Zero(expIface), "nil"},
 	}
@@ -577,6 +580,30 @@ func apiCatalogue(g *gen.Gen, seed int64, budget int, record func(name, owner st
 			case mt.NumIn() == 2 && mt.In(1).Kind() == reflect.String && mt.In(1).PkgPath() == "":
 				for _, str := range []string{"int2", "x"} {
 					unary = append(unary, job{name, owner, r.v.Method(i), mt, true, []reflect.Value{r.v, reflect.ValueOf(str)}, fmt.Sprintf("%s.%s(%q)", r.p, m.Name, str)})
+				}
+			case mt.NumIn() == 3 && mt.In(1).Kind() == reflect.String && expish(mt.In(2)):
+				// Prop(key, value): an existing first / last key, a new key, the empty key
+				for _, str := range []string{"x", "z", "int2", ""} {
+					for ai, a := range cat {
+						if fits(a.v, mt.In(2)) {
+							j := job{name, owner, r.v.Method(i), mt, true, []reflect.Value{r.v, reflect.ValueOf(str), a.v}, fmt.Sprintf("%s.%s(%q, %s)", r.p, m.Name, str, a.p)}
+							if ai < 8 || ai == len(cat)-1 {
+								unary = append(unary, j) // always run: a few value shapes and the nil value
+							} else {
+								binary = append(binary, j)
+							}
+						}
+					}
+				}
+			case mt.NumIn() == 4 && mt.In(1).Kind() == reflect.Bool && mt.In(2).Kind() == reflect.String && expish(mt.In(3)):
+				for _, c := range []bool{false, true} {
+					for _, str := range []string{"x", "z", "int2"} {
+						for _, a := range cat[:6] {
+							if fits(a.v, mt.In(3)) {
+								unary = append(unary, job{name, owner, r.v.Method(i), mt, true, []reflect.Value{r.v, reflect.ValueOf(c), reflect.ValueOf(str), a.v}, fmt.Sprintf("%s.%s(%v, %q, %s)", r.p, m.Name, c, str, a.p)})
+							}
+						}
+					}
 				}
 			case mt.NumIn() == 2 && expish(mt.In(1)):
 				for _, a := range cat {
